@@ -12,6 +12,7 @@ package gkvlite
 import (
 	"encoding/json"
 	"fmt"
+	"io"
 	"os"
 	"sort"
 	"testing"
@@ -59,6 +60,9 @@ func (i c15Info) Sys() interface{}   { return nil }
 type c15Ledger struct {
 	cnt map[*Item]int
 	bad []string
+	// hook run at the start of the (neutral) ItemValRead callback: lets a probe evict, or park a reader, at the
+	// point between an item read's look at the slot and its publication of the loaded item
+	onValRead func()
 }
 
 func (l *c15Ledger) callbacks() StoreCallbacks {
@@ -81,6 +85,15 @@ func (l *c15Ledger) callbacks() StoreCallbacks {
 			if l.cnt[i] < 0 {
 				l.bad = append(l.bad, fmt.Sprintf("count of item %q dropped below zero", string(i.Key)))
 			}
+		},
+		// behaviourally neutral: reads exactly the bytes the default reader would
+		ItemValRead: func(c *Collection, i *Item, r io.ReaderAt, offset int64, valLength uint32) error {
+			if h := l.onValRead; h != nil {
+				h()
+			}
+			i.Val = make([]byte, valLength)
+			_, err := r.ReadAt(i.Val, offset)
+			return err
 		},
 	}
 }
@@ -107,7 +120,7 @@ func (l *c15Ledger) outstanding() string {
 
 var c15Ops = []string{"none", "Exist", "ExistMissing", "Len", "MinItem", "MaxItem", "GetItem", "GetItemKeyOnly", "GetItemMissing",
 	"VisitAscend", "VisitAscendStop", "VisitDescend", "BlockEx", "Random", "Evict", "Overwrite", "Insert", "Delete", "DeleteMissing",
-	"SnapshotRead", "IterateAll", "IterateAbandon", "CopyTo"}
+	"SnapshotRead", "IterateAll", "IterateAbandon", "CopyTo", "EvictDuringValueRead", "RacingValueReads"}
 
 func c15Run(in c15Input) (what string) {
 	defer func() {
@@ -256,6 +269,45 @@ func c15Run(in c15Input) (what string) {
 			}
 			time.Sleep(time.Millisecond)
 		}
+	case "EvictDuringValueRead":
+		// the application's value reader does cache management: it evicts while a with-value read of an item
+		// that is cached key-only is under way, so that read loses the publication of what it loaded
+		i, _ := c.GetItem(mid, false)
+		release(i, "GetItem")
+		l.onValRead = func() { l.onValRead = nil; c.EvictSomeItems() }
+		i, _ = c.GetItem(mid, true)
+		l.onValRead = nil
+		release(i, "GetItem")
+	case "RacingValueReads":
+		// two readers upgrade the same key-only cached item; reader A is parked inside its value read until
+		// reader B has finished (a forced schedule, not a race: the goroutines hand over through channels)
+		i, _ := c.GetItem(mid, false)
+		release(i, "GetItem")
+		parked, resume, done := make(chan bool), make(chan bool), make(chan *Item)
+		first := true
+		l.onValRead = func() {
+			if first {
+				first = false
+				close(parked)
+				<-resume
+			}
+		}
+		go func() {
+			a, _ := c.GetItem(mid, true)
+			done <- a
+		}()
+		select {
+		case <-parked:
+			b, _ := c.GetItem(mid, true)
+			release(b, "GetItem (reader B)")
+			close(resume)
+			release(<-done, "GetItem (reader A)")
+		case a := <-done: // nothing to load (freshly built store, or no such key): A never reached a value read
+			release(a, "GetItem (reader A)")
+		case <-time.After(5 * time.Second):
+			return "reader A neither reached its value read nor returned within 5 s"
+		}
+		l.onValRead = nil
 	case "CopyTo":
 		dst, err := s.CopyTo(&c15MemFile{}, 2)
 		if err != nil {
